@@ -14,6 +14,7 @@ import (
 
 	"ariga.io/atlas/cmd/atlas/internal/cmdlog"
 	cmdmigrate "ariga.io/atlas/cmd/atlas/internal/migrate"
+	"ariga.io/atlas/internal/verifhook"
 	"ariga.io/atlas/sql/migrate"
 	"github.com/spf13/cobra"
 )
@@ -99,6 +100,7 @@ func migrateApplyRun(cmd *cobra.Command, args []string, flags migrateApplyFlags,
 		return err
 	}
 	pending, err := ex.Pending(ctx)
+	verifhook.At("pending", "n", len(pending), "err", err != nil)
 	if err != nil && !errors.Is(err, migrate.ErrNoPendingFiles) {
 		mr.RecordPlanError(cmd, flags, err.Error())
 		return err
@@ -152,5 +154,6 @@ func migrateApplyRun(cmd *cobra.Command, args []string, flags migrateApplyFlags,
 	if err != nil {
 		report.Error = err.Error()
 	}
+	verifhook.At("apply_end", "err", err != nil)
 	return errors.Join(err, mr.Done(cmd, flags))
 }
